@@ -775,6 +775,11 @@ func init() {
 					if int(n) != len(lw.got) {
 						direct = append(direct, fmt.Sprintf("%s into a writer that fails after %d of %d bytes (partial writes %v) returned n=%d but the writer accepted %d bytes", tg.name, lim, total, partial, n, len(lw.got)))
 					}
+					// whatever happened to the writer, the object is what it was: it encodes to the same bytes
+					var again bytes.Buffer
+					if _, e2 := tg.w.WriteTo(&again); e2 != nil || !bytes.Equal(again.Bytes(), tg.ref) {
+						direct = append(direct, fmt.Sprintf("%s: after a write that failed after %d of %d bytes (partial writes %v) the object encodes differently (or not at all: %v)", tg.name, lim, total, partial, e2))
+					}
 					if (err == nil) != (lim >= total) || !bytes.HasPrefix(tg.ref, lw.got) || (partial && len(lw.got) != lim) {
 						direct = append(direct, fmt.Sprintf("%s into a writer with room for %d of %d bytes: err=%v, %d bytes accepted, prefix of the serialisation: %v", tg.name, lim, total, err, len(lw.got), bytes.HasPrefix(tg.ref, lw.got)))
 					}
@@ -1284,6 +1289,20 @@ func init() {
 			}
 		}
 	})
+	// C10: passphrases longer than 255, 256, 1000 bytes (every byte of the passphrase goes into scrypt), and the
+	// decryption with a passphrase that differs only beyond byte 256
+	regExtra("C10", func(r *Runner) {
+		k := r.scalar(5)
+		for _, n := range []int{257, 300, 1000} {
+			pw := strings.Repeat("long passphrase, ", n/17+1)[:n]
+			r.Do("bip38.enc", []string{hx(k), sx(pw), "1"}, "bip38-enc-long-passphrase", true, fmt.Sprintf("%d bytes", n))
+			if s, err := bip38.Encrypt(k, pw, true); err == nil {
+				r.Do("bip38.dec", []string{sx(s), sx(pw[:n-1] + "X")}, "bip38-dec-long-passphrase-wrong-tail", true, "")
+				r.Do("bip38.dec", []string{sx(s), sx(pw[:256])}, "bip38-dec-long-passphrase-cut", true, "")
+			}
+		}
+		r.Do("bip38.icode", []string{hx(r.bytesN(8)), sx(strings.Repeat("y", 300))}, "bip38-icode-long-passphrase", true, "")
+	})
 	// C10: an encryption that fails half-way (the random source runs dry, the intermediate code has the wrong
 	// magic bytes) followed by ordinary encryptions: the later answers are those of a fresh process
 	regExtra("C10", func(r *Runner) {
@@ -1348,6 +1367,56 @@ func init() {
 			r.eccVerify(pub, h[:], rr, ss, "ecdsa-valid-short-half", true)
 			r.eccVerify(pub, h[:], r2, s2, "ecdsa-recut-after-honest", false)
 			found++
+		}
+	})
+	// public keys of a legal length plus a multiple of 256, padded with zeros so that the coordinates read the same
+	for _, pid := range []string{"C05", "C06"} {
+		pid := pid
+		regExtra(pid, func(r *Runner) {
+			for i := 0; i < r.N(4, 20); i++ {
+				k := r.scalar(3000 + i)
+				c, u, x := ecc.GetPublicKeyCompressed(k), ecc.GetPublicKeyUncompressed(k), ecc.GetPublicKeySchnorr(k)
+				for _, pad := range []int{256, 512} {
+					z := make([]byte, pad)
+					variants := [][]byte{
+						append(append([]byte{c[0]}, z...), c[1:]...),
+						append(append([]byte{}, z...), x...),
+						append(append(append([]byte{}, u[:33]...), z...), u[33:]...),
+						append(append([]byte{}, c...), z...),
+					}
+					for _, v := range variants {
+						r.Do("point.dec", []string{hx(v)}, "point-dec/length plus a multiple of 256", true, fmt.Sprintf("%d bytes", len(v)))
+						if pid == "C05" {
+							h := r.bytesN(32)
+							rr, ss := ecc.SignECDSA(k, h)
+							r.eccVerify(v, h, rr, ss, "ecdsa-key-length-plus-256k", false)
+						}
+					}
+				}
+			}
+		})
+	}
+	// C03: BIP143 with exactly 63, 64, 65, 128 inputs (hashPrevouts / hashSequence over whole batches of records)
+	regExtra("C03", func(r *Runner) {
+		for _, n := range []int{63, 64, 65, 128} {
+			t, _ := r.genTx(1, 2)
+			for len(t.Inputs) < n {
+				po := &tx.PrevOut{Index: r.u32()}
+				copy(po.Hash[:], r.bytesN(32))
+				t.Inputs = append(t.Inputs, &tx.Input{PrevOut: po, Script: []byte{}, Sequence: r.u32()})
+			}
+			t.Witnesses = nil
+			if len(t.Outputs) == 0 {
+				t.Outputs = []*tx.Output{{Value: 5, Script: []byte{0x51}}}
+			}
+			enc := hx(t.Bytes())
+			for _, idx := range []int{0, n - 1} {
+				for _, ht := range []uint32{1, 2, 3, 0x81} {
+					wargs := []string{enc, strconv.Itoa(idx), "76a914000102030405060708090a0b0c0d0e0f1011121388ac", strconv.FormatUint(uint64(ht), 10), "12345"}
+					r.Do("sighash.bip143", wargs, "bip143-many-inputs", true, fmt.Sprintf("%d inputs", n))
+					r.Do("sighash.bip143.spec", wargs, "bip143-many-inputs-spec", true, "")
+				}
+			}
 		}
 	})
 	// floods of distinct inputs through functions that a bounded cache could sit behind: the run then holds
